@@ -7,7 +7,7 @@
 (* says the results and the state must be in exp, the logged values in     *)
 (* obs, and the invariant Conforms compares them.  Nothing is inferred     *)
 (* from the plan; nothing but arguments is taken from the trace.           *)
-EXTENDS ApiSponge, ApiCpp, ApiKdf, ApiHex, Conc, Json, IOUtils, TLC
+EXTENDS ApiSponge, ApiCpp, ApiKdf, ApiHex, ApiByteArray, Conc, Json, IOUtils, TLC
 
 T == ndJsonDeserialize(IOEnv.TRACE)
 
@@ -346,7 +346,38 @@ ExtraNext == TrCxhNew \/ TrCxhAssign \/ TrCxhReset \/ TrCxhAbsorb \/ TrCxhSqueez
              \/ TrUtilFromHex \/ TrUtilToHex \/ TrUtilFromData \/ TrHexTo \/ TrHexFrom
 
 -----------------------------------------------------------------------------
-Next == TrReset \/ PermNext \/ SpongeNext \/ AeadNext \/ AeadIncNext \/ KdfNext \/ IsapNext \/ PrngNext \/ MiscNext \/ ExtraNext
+(* C20: the replacement byte_array.  objs maps a variable to its abstract  *)
+(* value [kind = "ba", v = sequence]; after every operation the observers  *)
+(* of ALL live variables must equal the abstract values.                   *)
+BaVal(id) == objs[id].v
+BaSet(id, s) == Put(id, [kind |-> "ba", v |-> s])
+BaAll(o) == {<<id, Len(o[id].v), IF Len(o[id].v) = 0 THEN 1 ELSE 0, o[id].v>> : id \in {i \in DOMAIN o : o[i].kind = "ba"}}
+BaObs(ev) == {<<ev.vars[i].id, ev.vars[i].size, ev.vars[i].empty, ev.vars[i].data>> : i \in DOMAIN ev.vars}
+BaStep(o, e, ob) == Step(o, <<BaAll(o), e>>, <<BaObs(T[l]), ob>>)
+
+TrBaNew == IsEv("ba.new") /\ LET ev == T[l]
+      s == CASE ev.how = "default" -> <<>> [] ev.how = "sized" -> AConstruct(ev.n, ev.value)
+             [] ev.how = "sized0" -> AConstruct(ev.n, 0) [] ev.how = "copy" -> BaVal(ev.src) IN
+  BaStep(BaSet(ev.obj, s), <<>>, <<>>)
+TrBaAssign == IsEv("ba.assign") /\ LET ev == T[l] IN BaStep(BaSet(ev.obj, BaVal(ev.src)), <<>>, <<>>)
+TrBaIndexSet == IsEv("ba.index_set") /\ LET ev == T[l] IN BaStep(BaSet(ev.obj, ASet(BaVal(ev.obj), ev.pos, ev.value)), <<>>, <<>>)
+TrBaIndexGet == IsEv("ba.index_get") /\ LET ev == T[l] IN BaStep(objs, <<BaVal(ev.obj)[ev.pos + 1]>>, <<ev.ret>>)
+TrBaDataSet == IsEv("ba.data_set") /\ LET ev == T[l] IN BaStep(BaSet(ev.obj, ASet(BaVal(ev.obj), ev.pos, ev.value)), <<>>, <<>>)
+TrBaResize == IsEv("ba.resize") /\ LET ev == T[l] IN BaStep(BaSet(ev.obj, AResize(BaVal(ev.obj), ev.n)), <<>>, <<>>)
+TrBaReserve == IsEv("ba.reserve") /\ LET ev == T[l] IN BaStep(objs, <<1>>, <<ev.cap_ok>>)
+TrBaPush == IsEv("ba.push") /\ LET ev == T[l] IN BaStep(BaSet(ev.obj, APush(BaVal(ev.obj), ev.value)), <<>>, <<>>)
+TrBaPop == IsEv("ba.pop") /\ LET ev == T[l] IN BaStep(BaSet(ev.obj, APop(BaVal(ev.obj))), <<>>, <<>>)
+TrBaClear == IsEv("ba.clear") /\ LET ev == T[l] IN BaStep(BaSet(ev.obj, <<>>), <<>>, <<>>)
+B01(b) == IF b THEN 1 ELSE 0
+TrBaCmp == IsEv("ba.cmp") /\ LET ev == T[l]  r == RelOps(ACmp(BaVal(ev.obj), BaVal(ev.other))) IN
+  BaStep(objs, <<B01(r.eq), B01(r.ne), B01(r.lt), B01(r.le), B01(r.gt), B01(r.ge)>>, <<ev.eq, ev.ne, ev.lt, ev.le, ev.gt, ev.ge>>)
+TrBaIter == IsEv("ba.iter") /\ LET ev == T[l] IN BaStep(objs, <<BaVal(ev.obj)>>, <<ev.out>>)
+TrBaDel == IsEv("ba.del") /\ LET ev == T[l] IN BaStep(Del(ev.obj), <<>>, <<>>)
+BaNext == TrBaNew \/ TrBaAssign \/ TrBaIndexSet \/ TrBaIndexGet \/ TrBaDataSet \/ TrBaResize \/ TrBaReserve
+          \/ TrBaPush \/ TrBaPop \/ TrBaClear \/ TrBaCmp \/ TrBaIter \/ TrBaDel
+
+-----------------------------------------------------------------------------
+Next == TrReset \/ PermNext \/ SpongeNext \/ AeadNext \/ AeadIncNext \/ KdfNext \/ IsapNext \/ PrngNext \/ MiscNext \/ ExtraNext \/ BaNext
 
 Spec == Init /\ [][Next]_vars
 
